@@ -14,9 +14,10 @@ def mk_select(d):
     return PortSelect(s)
 
 
-def mk_portscfg(cfg, multiclient=None):
+def mk_portscfg(cfg, multiclient=None, select=None):
+    use_repo_src()
     from dznpy.adv_shell.port_selection import PortsSemanticsCfg, PortsCfg
-    a, b, c, d = (mk_select(cfg[k]) for k in ('psts', 'pmts', 'rsts', 'rmts'))
+    a, b, c, d = ((select or mk_select)(cfg[k]) for k in ('psts', 'pmts', 'rsts', 'rmts'))
     return PortsCfg(provides=PortsSemanticsCfg(sts=a, mts=b), requires=PortsSemanticsCfg(sts=c, mts=d),
                     multiclient=multiclient)
 
